@@ -51,6 +51,33 @@ type raceDesc struct {
 	Goroutines int    `json:"goroutines"`
 	PerG       int    `json:"per_g"`
 	Sink       bool   `json:"sink"`
+	Focus      string `json:"focus"` // what every goroutine calls first (cold-start contention target)
+}
+
+var raceFocuses = []string{"rs-climb", "aztec-10bit", "aztec-12bit", "pdf417", "aztec-small", "datamatrix-big", "qr-big", "onedim", "rs-climb", "aztec-8bit"}
+
+// focusReqs: the first calls of every goroutine; all of them hit the same family and
+// size class at the same time while everything in the process is still cold.
+func focusReqs(focus string, gr *rand.Rand) []Req {
+	switch focus {
+	case "aztec-10bit":
+		return []Req{{Fam: "aztec", S: randBytes(gr, 250+gr.Intn(500), highAB), I: []int64{33, 0}, Scheme: -1}, {Fam: "aztec", S: randBytes(gr, 200, printAB), I: []int64{23, 12}, Scheme: -1}}
+	case "aztec-12bit":
+		return []Req{{Fam: "aztec", S: randBytes(gr, 1100+gr.Intn(300), highAB), I: []int64{33, 0}, Scheme: -1}, {Fam: "aztec", S: []byte("A"), I: []int64{23, int64(23 + gr.Intn(10))}, Scheme: -1}}
+	case "aztec-8bit":
+		return []Req{{Fam: "aztec", S: randBytes(gr, 40+gr.Intn(60), printAB), I: []int64{33, 0}, Scheme: -1}, {Fam: "aztec", S: randBytes(gr, 30, highAB), I: []int64{23, 0}, Scheme: -1}}
+	case "aztec-small":
+		return []Req{{Fam: "aztec", S: randBytes(gr, 1+gr.Intn(12), upperAB), I: []int64{33, 0}, Scheme: -1}, {Fam: "aztec", S: []byte("a1!"), I: []int64{33, -1}, Scheme: -1}}
+	case "pdf417":
+		return []Req{{Fam: "pdf417", S: pdfTextWalk(gr, 20+gr.Intn(200)), I: []int64{int64(gr.Intn(9))}, Scheme: -1}, {Fam: "pdf417", S: randBytes(gr, 30, digitsAB), I: []int64{2}, Scheme: -1}, {Fam: "pdf417", S: randBytes(gr, 13, highAB), I: []int64{1}, Scheme: -1}}
+	case "datamatrix-big":
+		return []Req{{Fam: "datamatrix", S: randBytes(gr, 900+gr.Intn(500), upperAB), Scheme: -1}, {Fam: "datamatrix", S: randBytes(gr, 300, highAB), Scheme: -1}}
+	case "qr-big":
+		return []Req{{Fam: "qr", S: randBytes(gr, 800+gr.Intn(900), printAB), I: []int64{int64(gr.Intn(4)), 0}, Scheme: -1}, {Fam: "qr", S: randBytes(gr, 900, digitsAB), I: []int64{3, 1}, Scheme: -1}}
+	case "onedim":
+		return []Req{randomValidReq(gr, "code128", -1), randomValidReq(gr, "code39", -1), randomValidReq(gr, "code93", -1), randomValidReq(gr, "ean", -1), randomValidReq(gr, "codabar", -1), randomValidReq(gr, "2of5", -1)}
+	}
+	return nil
 }
 
 type raceOut struct {
@@ -91,6 +118,7 @@ func raceRequests(d *raceDesc) [][]Req {
 	for g := range lists {
 		gr := rand.New(rand.NewSource(d.Seed*1000003 + int64(g)))
 		var l []Req
+		l = append(l, focusReqs(d.Focus, gr)...)
 		// climb through the RS degrees, in an order private to this goroutine
 		climb := append(append([]Req{}, qrDeg...), dmDeg...)
 		switch g % 3 {
@@ -392,6 +420,7 @@ func (p c16) Run(par *fw.Parent) *fw.Result {
 		if d.Goroutines >= 32 {
 			d.PerG = 30
 		}
+		d.Focus = raceFocuses[(i/3)%len(raceFocuses)]
 		descs = append(descs, d)
 	}
 	// non-deciding contention pass with the sink on (plain binary is enough)
@@ -526,6 +555,7 @@ func (p c16) Run(par *fw.Parent) *fw.Result {
 		merged.Evals += int64(o.Calls)
 		if !d.Sink {
 			cover("grid(goroutines x GOMAXPROCS)", fmt.Sprintf("%dx%d", d.Goroutines, d.Procs))
+			cover("cold_start_focus", d.Focus)
 			n, byEntry, byStack := raceReports(pr.dir)
 			totalRaces += n
 			for ek, cnt := range byEntry {
